@@ -18,7 +18,7 @@ RULE = ("cases = (first message: CONNECT with a handshake payload shape x valida
         "at least one INVOKE follows the first message")
 ASSUMPTIONS = ["for an unknown serializer id or an exception whose __str__ raises the statement promises no reason: only 'nothing ran' and 'closed' are required",
                "pre-connected socket pairs are exempt and not exercised", "'is closed' = EOF/RST observed within a 10 s watchdog"]
-REQUIRED_REACH = ["sibling_refusals_ok", "baseexception_validators_ok", "collected_weak_ids_refused", "reused_tickets_refused", "refused_ok", "accepted_ok", "pipelined_invokes_sent", "validator_raised", "wrong_first_type", "unknown_object", "malformed_first"]
+REQUIRED_REACH = ["late_refusals_ok", "late_acceptances_ok", "sibling_refusals_ok", "baseexception_validators_ok", "collected_weak_ids_refused", "reused_tickets_refused", "refused_ok", "accepted_ok", "pipelined_invokes_sent", "validator_raised", "wrong_first_type", "unknown_object", "malformed_first"]
 SHARD_TIMEOUT = {"quick": 240, "thorough": 2800}
 
 
@@ -592,6 +592,61 @@ def weak_object_phase(fx, log, rec, r, n):
     rec.count("collected_weak_ids_refused")
 
 
+def slow_validator_phase(P, servertype, rec, r):
+    """a daemon with a communication timeout, and a validator that takes longer than that timeout to make up its mind (a lookup in a slow
+    directory, say): its verdict counts all the same - a late refusal is a refusal (connect-failure with the reason, nothing runs), a late
+    acceptance is an acceptance"""
+    log = fixture.EventLog()
+
+    @P.server.expose
+    class Marker(object):
+        def mark(self, token):
+            log.add("exec", "mark", token)
+            return "marked:" + str(token)
+    fx = fixture.Fixture(servertype=servertype, COMMTIMEOUT=0.25)
+    fx.register(Marker(), "marker")
+
+    def validator(conn, data):
+        d = data if isinstance(data, dict) else {}
+        time.sleep(0.65)
+        if d.get("mode") == "slow-raise":
+            raise PermissionError("refused after a long look: " + str(d.get("token")))
+        if d.get("mode") == "slow-exit":
+            raise SystemExit("the validator gives up")
+        return "welcome, eventually"
+    fx.daemon.hs_validator = validator
+    try:
+        for n, mode in enumerate(("slow-raise", "slow-accept", "slow-raise")):
+            ser = P.serializers.serializers[r.choice(fixture.SERIALIZERS)]
+            tok = "slow%d-%s" % (n, servertype)
+            pay = {"slow_validator": True, "servertype": servertype, "mode": mode}
+            rec.case(("slow-validator", mode, servertype, n), nontrivial=True)
+            c = wire.RawClient(fx.location, timeout=8.0)
+            try:
+                c.send(wire.encode(wire.CONNECT, 0, 0, ser.serializer_id, ser.dumps({"handshake": {"mode": mode, "token": tok}, "object": "marker"})) + invoke_bytes(P, ser, "marker", "mark", (tok,), 1))
+                try:
+                    m = c.recv_msg()
+                except (EOFError, OSError):
+                    m = None
+                time.sleep(0.1)
+            finally:
+                c.close()
+            ran = [e for e in log.of("exec") if e[3] == tok]
+            if mode == "slow-raise":
+                if ran or m is None or m.type != wire.CONNECTFAIL or "refused after a long look" not in str(decode_reason(P, m)):
+                    rec.violation("handshake-accepted-wrongly:validator-raised", "COMMTIMEOUT 0.25 s, a validator that raises PermissionError after 0.65 s: the peer got %s and %d pipelined call(s) ran" % (
+                        describe_reply(P, m) if m is not None else "nothing", len(ran)), pay)
+                    return
+                rec.count("late_refusals_ok")
+            else:
+                if m is None or m.type != wire.CONNECTOK or len(ran) != 1:
+                    rec.violation("valid-handshake-refused", "COMMTIMEOUT 0.25 s, a validator that accepts after 0.65 s: the peer got %s and %d pipelined call(s) ran" % (describe_reply(P, m) if m is not None else "nothing", len(ran)), pay)
+                    return
+                rec.count("late_acceptances_ok")
+    finally:
+        fx.stop()
+
+
 def plan(tier, seed):
     per = 400 if tier == "quick" else 3000
     n = 4 if tier == "quick" else 8
@@ -623,6 +678,7 @@ def run_shard(shard, rec):
         fx.stop()
     if shard["i"] < 2:
         baseexception_phase(P, shard["servertype"], rec, r)
+        slow_validator_phase(P, shard["servertype"], rec, r)
 
 
 def replay(payload, rec):
@@ -630,6 +686,9 @@ def replay(payload, rec):
     st = payload.pop("servertype", "thread")
     fx, log = make_env(P, st)
     try:
+        if payload.get("slow_validator"):
+            slow_validator_phase(P, payload["servertype"], rec, gen.rng(0, "replay"))
+            return
         if payload.get("weak_phase"):
             weak_object_phase(fx, log, rec, gen.rng(0, "replay"), payload.get("n", 0))
         elif payload.get("baseexception"):
